@@ -1,38 +1,37 @@
-"""Debug helper: which conjunct of a failing goal is not provable."""
+"""Debug helper: which leaf conjunct of a failing goal is not provable (recursive skolemisation)."""
+import os
 import z3
 from .types import str_distinct_axioms
 
-
-def conjuncts(e):
-    if z3.is_and(e):
-        out = []
-        for c in e.children():
-            out.extend(conjuncts(c))
-        return out
-    return [e]
+_n = [0]
 
 
-def explain(engine, ob, timeout=10000):
-    goal = ob.goal
+def leaves(goal, pre, path):
+    """Yield (path, premises, leaf)."""
+    if z3.is_quantifier(goal) and goal.is_forall():
+        _n[0] += 1
+        vs = [z3.Const(f"dbg{_n[0]}!{goal.var_name(i)}", goal.var_sort(i)) for i in range(goal.num_vars())]
+        yield from leaves(z3.substitute_vars(goal.body(), *reversed(vs)), pre, path + "A")
+    elif z3.is_implies(goal):
+        yield from leaves(goal.arg(1), pre + [goal.arg(0)], path)
+    elif z3.is_and(goal):
+        for i, c in enumerate(goal.children()):
+            yield from leaves(c, pre, path + f".{i}")
+    else:
+        yield path, pre, goal
+
+
+def explain(engine, ob, timeout=8000):
     hyps = list(engine.axioms) + str_distinct_axioms() + list(ob.pc)
-    pre = []
-    while True:
-        if z3.is_quantifier(goal) and goal.is_forall():
-            vs = [z3.Const(f"dbg!{goal.var_name(i)}!{i}", goal.var_sort(i)) for i in range(goal.num_vars())]
-            goal = z3.substitute_vars(goal.body(), *reversed(vs))
-            continue
-        if z3.is_implies(goal):
-            pre.append(goal.arg(0))
-            goal = goal.arg(1)
-            continue
-        break
+    n = int(os.environ.get("PYVC_EXPLAIN_CHARS", "300"))
     res = []
-    for c in conjuncts(goal):
+    for path, pre, leaf in leaves(ob.goal, [], ""):
         s = z3.Solver()
         s.set("timeout", timeout)
         s.add(hyps)
         s.add(pre)
-        s.add(z3.Not(c))
+        s.add(z3.Not(leaf))
         r = s.check()
-        res.append((str(r), " ".join(str(c).split())[:int(__import__("os").environ.get("PYVC_EXPLAIN_CHARS","300"))]))
+        if r != z3.unsat:
+            res.append((f"{path} {r}", " ".join(str(leaf).split())[:n]))
     return res
